@@ -103,6 +103,10 @@ func sanitizersForAttributeValue(c context) ([]string, error) {
 	if !sc0.isURLorTrustedResourceURL() {
 		return reverse(appendIfNotEmpty(ret, sanitizer)), nil
 	}
+	if c.attr.ambiguousValue {
+		// The prefix differs between the joined branches, so it may be empty on one of them only.
+		return nil, fmt.Errorf("actions must not occur after an ambiguous URL prefix in the %q attribute value context of a %q element", c.attr.name, c.element.name)
+	}
 	urlAttrValPrefix := c.attr.value
 	if urlAttrValPrefix == "" {
 		// Attribute value prefixes in URL or TrustedResourceURL sanitization contexts
@@ -110,9 +114,6 @@ func sanitizersForAttributeValue(c context) ([]string, error) {
 		return reverse(appendIfNotEmpty(ret, normalizeURLFuncName, sanitizer)), nil
 	}
 	// Action occurs after a URL or TrustedResourceURL prefix.
-	if c.attr.ambiguousValue {
-		return nil, fmt.Errorf("actions must not occur after an ambiguous URL prefix in the %q attribute value context of a %q element", c.attr.name, c.element.name)
-	}
 	validator, ok := urlPrefixValidators[sc0]
 	if !ok {
 		return nil, fmt.Errorf("cannot validate attribute value prefix %q in the %q sanitization context", c.attr.value, sc0)
